@@ -203,13 +203,16 @@ AfterErr(st, e) ==
                        ELSE IF e.op \in {"create_stream", "remove_stream"} THEN @ \cup {e.name}
                        ELSE @]
 
-(* once the CompoundFile is gone every judgement is informational (beyond the listed properties) *)
-GTag(t) == IF s.gone THEN "XDROP" ELSE t
+(* Once the CompoundFile is gone (dropped, or consumed by into_inner) a handle keeps obeying the byte-vector  *)
+(* model for everything it answers with Ok - position and len included - and never panics (C06; the defect   *)
+(* repaired by cae237d, "window moved although the file was gone", was found here).  WHICH calls fail, and    *)
+(* with what kind,                                                                                            *)
+(* is not stated anywhere: those two rules are informational (tag XDROP).                                     *)
 
 OpStep(e) ==
   IF skip THEN UNCHANGED <<s, skip>>
   ELSE IF e.res.k = "panic"
-  THEN /\ Fail(IF s.gone THEN "XDROP" ELSE "PANIC", e.op, e) /\ skip' = TRUE /\ UNCHANGED s
+  THEN /\ Fail("PANIC", e.op, e) /\ skip' = TRUE /\ UNCHANGED s
   ELSE IF e.res.k = "err" /\ e.res.e \in {"NoFile", "NoHandle"}
   THEN UNCHANGED <<s, skip>>          \* harness-level: nothing was called
   ELSE IF NeedsHandle(e) /\ ~s.hd.open
@@ -249,13 +252,13 @@ OpStep(e) ==
             \* has been retried successfully
             /\ Fail("C13", "stream-lost", e) /\ skip' = TRUE /\ UNCHANGED s
        ELSE IF s.mode = "plain" \/ ~(fired \/ s.faulted)
-       THEN /\ Fail(GTag("C06"), "unexpected-error", e)
+       THEN /\ Fail("C06", "unexpected-error", e)
             /\ PrintT(<<"EXPECTED", exp, "GOT", e.res>>)
             /\ skip' = TRUE /\ UNCHANGED s
        ELSE /\ s' = AfterErr(s, e) /\ skip' = FALSE                         \* injected failure surfaced
   ELSE (* Ok result *)
        IF exp # {}
-       THEN /\ Fail(GTag("C06"), "missing-refusal", e) /\ skip' = TRUE /\ UNCHANGED s
+       THEN /\ Fail("C06", "missing-refusal", e) /\ skip' = TRUE /\ UNCHANGED s
        ELSE IF fired /\ s.mode = "rw_faults" /\ e.op # "close"
        THEN /\ Fail("C13", "fault-swallowed", e) /\ skip' = TRUE /\ UNCHANGED s
        ELSE
@@ -263,11 +266,11 @@ OpStep(e) ==
            relaxed == s.mode = "rw_faults" /\ (s.faulted \/ s.taint # {}) /\ e.op \notin {"fresh_read", "len", "flush"}
            lenok == (Has(e, "len") /\ r.st.hd.open /\ r.st.hd.name \notin r.st.taint) => e.len = RLen(r.st.hd.view)
        IN IF ~r.valid /\ ~relaxed
-          THEN /\ Fail(IF s.gone THEN "XDROP" ELSE IF r.rule = "flush-reaches-backend" THEN "C13" ELSE IF s.mode = "ro_faults" THEN "C12"
+          THEN /\ Fail(IF r.rule = "flush-reaches-backend" THEN "C13" ELSE IF s.mode = "ro_faults" THEN "C12"
                        ELSE IF s.mode = "rw_faults" THEN "C13" ELSE "C06", r.rule, e)
                /\ skip' = TRUE /\ UNCHANGED s
           ELSE IF ~lenok
-          THEN /\ Fail(GTag("C06"), "len-not-current", e) /\ skip' = TRUE /\ UNCHANGED s
+          THEN /\ Fail("C06", "len-not-current", e) /\ skip' = TRUE /\ UNCHANGED s
           ELSE /\ s' = [r.st EXCEPT !.faulted = @ \/ fired,
                                   \* a failure swallowed by a drop leaves that stream's update unfinished for good
                                   !.unrec = IF fired THEN @ \cup {<<"*">>} ELSE @ \ Finishes(s, e)]
